@@ -87,6 +87,7 @@ type guardRules struct {
 	fnKey    string
 	frozen   map[string]string
 	induct   map[types.Object]bool
+	scans    map[*FlowFn]*scanInfo
 }
 
 // validatorPost derives validate.ActionResult's post-condition from its body.
@@ -163,7 +164,7 @@ func guardFacts(c *Ctx, pkgs []string, doNil, doDiv, doIdx bool) {
 		Call:    g.call,
 		Assign:  g.assign,
 		Cond:    g.cond,
-	})
+	}, "casblob.readHeader") // facts about the parsed header flow to the readers through `return &h, nil`
 	var fns []*FuncInfo
 	for _, p := range pkgs {
 		fns = append(fns, c.P.FuncsInPkg(p)...)
@@ -189,7 +190,7 @@ func (g *guardRules) runFunc(fl *FlowFn) {
 	for root.Outer != nil {
 		root = root.Outer
 	}
-	g.scanFunc(root)
+	_ = root
 	x := NewExec(fl, g.base)
 	x.Run(newSt())
 	if x.Aborted != "" {
@@ -219,10 +220,27 @@ func (g *guardRules) runFunc(fl *FlowFn) {
 	g.fnKey = fl.Name
 }
 
-// scanFunc finds nilable locals and loop induction variables of fn.
-func (g *guardRules) scanFunc(fn *FlowFn) {
-	g.nilable = map[types.Object]bool{}
-	g.induct = map[types.Object]bool{}
+type scanInfo struct{ nilable, induct map[types.Object]bool }
+
+// scan finds nilable locals and loop induction variables of the function
+// (the outermost enclosing declaration) fn belongs to; cached.
+func (g *guardRules) scan(fn *FlowFn) *scanInfo {
+	for fn.Outer != nil {
+		fn = fn.Outer
+	}
+	if g.scans == nil {
+		g.scans = map[*FlowFn]*scanInfo{}
+	}
+	if si := g.scans[fn]; si != nil {
+		return si
+	}
+	si := &scanInfo{nilable: map[types.Object]bool{}, induct: map[types.Object]bool{}}
+	g.scans[fn] = si
+	g.scanFunc(fn, si)
+	return si
+}
+
+func (g *guardRules) scanFunc(fn *FlowFn, si *scanInfo) {
 	info := fn.Info
 	ast.Inspect(fn.Body, func(n ast.Node) bool {
 		switch n := n.(type) {
@@ -231,7 +249,7 @@ func (g *guardRules) scanFunc(fn *FlowFn) {
 				for i, r := range n.Rhs {
 					if msgFieldLoad(info, r) {
 						if o := identObj(info, n.Lhs[i]); o != nil {
-							g.nilable[o] = true
+							si.nilable[o] = true
 						}
 					}
 				}
@@ -241,7 +259,7 @@ func (g *guardRules) scanFunc(fn *FlowFn) {
 					if f := Callee(info, call); f != nil && isMsgPtr(info.TypeOf(n.Lhs[0])) {
 						if fi := g.c.P.FuncOf(f); fi != nil && g.resultSummary(fi) == "nilable" {
 							if o := identObj(info, n.Lhs[0]); o != nil {
-								g.nilable[o] = true
+								si.nilable[o] = true
 							}
 						}
 					}
@@ -250,7 +268,7 @@ func (g *guardRules) scanFunc(fn *FlowFn) {
 		case *ast.ForStmt:
 			if as, ok := n.Init.(*ast.AssignStmt); ok && len(as.Lhs) == 1 && n.Post != nil {
 				if o := identObj(info, as.Lhs[0]); o != nil {
-					g.induct[o] = true
+					si.induct[o] = true
 				}
 			}
 		case *ast.RangeStmt:
@@ -258,7 +276,7 @@ func (g *guardRules) scanFunc(fn *FlowFn) {
 				if o := identObj(info, n.Key); o != nil {
 					// range index of a slice is always in bounds for that slice
 					if _, isMap := info.TypeOf(n.X).Underlying().(*types.Map); !isMap {
-						g.induct[o] = true
+						si.induct[o] = true
 					}
 				}
 			}
@@ -290,10 +308,8 @@ func (g *guardRules) resultSummary(fi *FuncInfo) string {
 			res = "nilable"
 		}
 	}
-	saveN, saveI, saveK := g.nilable, g.induct, g.fnKey
 	x := NewExec(fl, b)
 	x.Run(newSt())
-	g.nilable, g.induct, g.fnKey = saveN, saveI, saveK
 	if x.Aborted != "" {
 		res = "nilable"
 	}
@@ -414,7 +430,7 @@ func (g *guardRules) observe(x *Exec, e ast.Expr, s St, doNil, doDiv, doIdx bool
 		src := ""
 		if msgFieldLoad(info, e.X) {
 			src = "field"
-		} else if o := identObj(info, e.X); o != nil && g.nilable[o] {
+		} else if o := identObj(info, e.X); o != nil && g.scan(x.Fn).nilable[o] {
 			src = "local"
 		}
 		if src == "" {
@@ -445,7 +461,7 @@ func (g *guardRules) observe(x *Exec, e ast.Expr, s St, doNil, doDiv, doIdx bool
 			}
 		}
 		R.Check(safe, "R14b", key, g.c.P.Pos(e.Pos()), "divisor "+exprStr(e.Y)+" is dominated by a non-zero check",
-			exprStr(e)+": the divisor can be zero on this path (integer divide by zero panics the handler)", x.Trace()...)
+			exprStr(e)+": the divisor can be zero on this path (integer divide by zero panics the handler); divisor term "+t+"; known: "+factsAbout(s, t), x.Trace()...)
 	case *ast.IndexExpr:
 		if !doIdx || !idxScope(root.Name) {
 			return
@@ -471,7 +487,7 @@ func (g *guardRules) observe(x *Exec, e ast.Expr, s St, doNil, doDiv, doIdx bool
 			return // generic instantiation
 		}
 		// induction variables / range indices are in bounds by construction
-		if o := identObj(info, e.Index); o != nil && g.induct[o] {
+		if o := identObj(info, e.Index); o != nil && g.scan(x.Fn).induct[o] {
 			return
 		}
 		xtm, ok1 := g.base.Term(x, e.X, s)
@@ -679,4 +695,16 @@ func idxScope(fn string) bool {
 		return !strings.HasPrefix(fn, "casblob.WriteAndClose") && !strings.HasPrefix(fn, "casblob.(*header).write")
 	}
 	return false
+}
+
+// factsAbout lists the atoms of s that mention term t (for diagnostics).
+func factsAbout(s St, t string) string {
+	var out []string
+	for k, v := range s.m {
+		if strings.Contains(k, t) {
+			out = append(out, k+"="+v)
+		}
+	}
+	sort.Strings(out)
+	return strings.Join(out, " ")
 }
